@@ -27,12 +27,45 @@ _HUB_ASSUME = ["Go runtime semantics are modelled, not verified: a select picks 
                "wall-clock promptness and goroutine release are measured by the oracle and reported as exploration"]
 
 PROPS = {
-    "C13": {"streams": [_HUB_STREAM], "oracles": ["hub"], "rule": _HUB_RULE, "assumptions": _HUB_ASSUME, "oracle_n": {"quick": 150, "thorough": 3000}},
-    "C12": {"streams": [_HUB_STREAM], "oracles": ["hub"], "rule": _HUB_RULE, "assumptions": _HUB_ASSUME, "oracle_n": {"quick": 150, "thorough": 3000}},
-    "C11": {"streams": [_HUB_STREAM], "oracles": ["hub"], "rule": _HUB_RULE, "assumptions": _HUB_ASSUME, "oracle_n": {"quick": 150, "thorough": 3000}},
+    "C01": {"streams": [_FRAG_STREAM, {"name": "mux", "quick": 3000, "thorough": 100000, "thorough_seeds": 2}],
+            "oracles": ["swarm", "frag"], "oracle_n": {"quick": 28, "thorough": 600},
+            "rule": "swarm oracle: 14 stack templates (in-memory, fragmenting, string/uint16 multiplexed, multi-transport, P2PKE, "
+                    "message-box over P2PKE, whitelisted, real UDP, P2PKE+fragmenting over UDP, QUIC over UDP, SSH) nested by runtime type "
+                    "erasure; 2-3 nodes, 3 concurrent receivers each, 4-8 concurrent senders with boundary lengths 0,1,2,MTU-1,MTU and unique "
+                    "contents, send buffers overwritten as soon as Tell returns; every delivery is checked against the ledger of told "
+                    "(src, dst, payload) triples; the layer streams (frag, mux) give the lock-step comparison for the framing layers",
+            "assumptions": ["QUIC, SSH and UDP internals are outside the model: they are assumed to be datagram/stream/auth services and only "
+                            "checked for admissibility against the ledger",
+                            "the stack theorem composes per-layer soundness (C10 reassembly, C15 framing, C02 channel authenticity); it does not "
+                            "re-prove them"]},
+    "C13": {"streams": [_HUB_STREAM], "oracles": ["hub", "swarm"], "rule": _HUB_RULE, "assumptions": _HUB_ASSUME, "oracle_n": {"quick": 100, "thorough": 2000}},
+    "C12": {"streams": [_HUB_STREAM], "oracles": ["hub", "swarm"], "rule": _HUB_RULE, "assumptions": _HUB_ASSUME, "oracle_n": {"quick": 100, "thorough": 2000}},
+    "C11": {"streams": [_HUB_STREAM], "oracles": ["hub", "swarm"], "rule": _HUB_RULE, "assumptions": _HUB_ASSUME, "oracle_n": {"quick": 100, "thorough": 2000}},
     "C14": {"streams": [_HUB_STREAM], "oracles": ["hub"], "rule": _HUB_RULE, "level": "proof",
             "assumptions": _HUB_ASSUME + ["data-race freedom under the Go memory model is NOT claimed (no model represents happens-before); "
-                                          "only buffer ownership in the queue and hubs is proved"], "oracle_n": {"quick": 150, "thorough": 3000}},
+                                          "only buffer ownership in the queue and hubs is proved"], "oracle_n": {"quick": 100, "thorough": 2000}},
+    "C05": {"streams": [_KE_STREAM], "oracles": ["ke"], "rule": _KE_RULE, "assumptions": _KE_ASSUME,
+            "oracle_n": {"quick": 3000, "thorough": 60000}},
+    "C07": {"streams": [_KE_STREAM], "oracles": ["ke"], "rule": _KE_RULE, "oracle_n": {"quick": 3000, "thorough": 60000},
+            "assumptions": _KE_ASSUME + ["convergence is proved for fresh channels and for a peer restart after establishment / after the "
+                                         "first InitHello (three reliable round trips); arbitrary adversarial prefixes are covered by the "
+                                         "invariants (slots, keys, keep-alive) and by the correspondence, not by a general convergence theorem",
+                                         "timers firing when due and wall-clock bounds are outside the model; the real-time keep-alive case of the oracle is exploration"]},
+    "C08": {"streams": [{"name": "mux", "quick": 3000, "thorough": 200000, "thorough_seeds": 2},
+                        {"name": "frag", "quick": 12000, "thorough": 300000, "thorough_seeds": 2, "stateful": True, "seq_start": ("frag-new", "mb-new")},
+                        {"name": "key", "quick": 8000, "thorough": 200000, "thorough_seeds": 2},
+                        {"name": "addr", "quick": 8000, "thorough": 200000, "thorough_seeds": 2},
+                        {"name": "cache", "quick": 10000, "thorough": 200000, "thorough_seeds": 2, "stateful": True, "seq_start": "new"},
+                        {"name": "dht", "quick": 1500, "thorough": 50000, "thorough_seeds": 2},
+                        {"name": "ke", "quick": 12000, "thorough": 200000, "thorough_seeds": 2, "stateful": True, "seq_start": "reset"}],
+            "oracles": ["mux", "frag", "key", "addr", "dht"],
+            "oracle_n": {"quick": 1500, "thorough": 50000},
+            "rule": "every correspondence stream doubles as a crash detector: a panic in the implementation is the observation `fault`, which the "
+                    "models never produce; malformed inputs are structured mutations of valid ones (every header field at 0/1/max/2^63, "
+                    "lengths around every boundary, later packets contradicting earlier ones) plus raw random bytes; slices are passed with "
+                    "cap == len so that an out-of-range slice expression faults exactly when the length check says so",
+            "assumptions": ["parsers outside the repository (encoding/asn1, protobuf, flynn/noise, quic-go, x/crypto/ssh) are fuzzed through the "
+                            "streams but not modelled"]},
     "C02": {"streams": [_KE_STREAM], "oracles": ["ke"], "rule": _KE_RULE, "assumptions": _KE_ASSUME,
             "oracle_n": {"quick": 3000, "thorough": 60000}},
     "C03": {"streams": [_KE_STREAM], "oracles": ["ke"], "rule": _KE_RULE, "assumptions": _KE_ASSUME,
